@@ -137,3 +137,276 @@ Lemma two_digits v : 0 <= v < 100 ->
 Proof.
   intros H. apply bytes_eqb_eq. exact (forall_range_spec _ _ _ two_digits_sweep v ltac:(lia)).
 Qed.
+
+(** * Numbers: the writers of formatting.rs against the documentation-level [pad_num] *)
+Definition fres_eqb (a : fres) (s : bytes) : bool :=
+  match a with Val (Some t) => bytes_eqb t s | _ => false end.
+Lemma fres_eqb_eq a s : fres_eqb a s = true -> a = fok s.
+Proof.
+  destruct a as [[t|]| |]; cbn; try discriminate. intros H. apply bytes_eqb_eq in H. subst. reflexivity.
+Qed.
+Definition all_pads : list dpad := [DNone; DZero; DSpace].
+Lemma all_pads_in p : In p all_pads. Proof. destruct p; cbn; auto. Qed.
+
+Definition write_two_ok (v : Z) : bool :=
+  forallb (fun p => fres_eqb (write_two v (pad_of p)) (pad_num p 2 false v)) all_pads.
+Lemma write_two_sweep : forall_range write_two_ok 0 100 = true.
+Proof. vm_compute. reflexivity. Qed.
+Lemma write_two_spec v p : 0 <= v < 100 -> write_two v (pad_of p) = fok (pad_num p 2 false v).
+Proof.
+  intros H. apply fres_eqb_eq.
+  pose proof (forall_range_spec _ _ _ write_two_sweep v ltac:(lia)) as Hs.
+  unfold write_two_ok in Hs. rewrite forallb_forall in Hs. apply Hs, all_pads_in.
+Qed.
+
+Definition write_one_ok (v : Z) : bool :=
+  forallb (fun p => fres_eqb (write_one v) (pad_num p 1 false v)) all_pads.
+Lemma write_one_sweep : forall_range write_one_ok 0 10 = true.
+Proof. vm_compute. reflexivity. Qed.
+Lemma write_one_spec v p : 0 <= v < 10 -> write_one v = fok (pad_num p 1 false v).
+Proof.
+  intros H. apply fres_eqb_eq.
+  pose proof (forall_range_spec _ _ _ write_one_sweep v ltac:(lia)) as Hs.
+  unfold write_one_ok in Hs. rewrite forallb_forall in Hs. apply Hs, all_pads_in.
+Qed.
+
+Definition write_hundreds_ok (v : Z) : bool := fres_eqb (write_hundreds v) (pad_num DZero 2 false v).
+Lemma write_hundreds_sweep : forall_range write_hundreds_ok 0 100 = true.
+Proof. vm_compute. reflexivity. Qed.
+Lemma write_hundreds_spec v : 0 <= v < 100 -> write_hundreds v = fok (pad_num DZero 2 false v).
+Proof.
+  intros H. apply fres_eqb_eq. exact (forall_range_spec _ _ _ write_hundreds_sweep v ltac:(lia)).
+Qed.
+
+Lemma blen_app (a b : bytes) : blen (a ++ b) = blen a + blen b.
+Proof. unfold blen. rewrite app_length. lia. Qed.
+
+Lemma rep_eq (c : Z) a b : a = b -> repeat c (Z.to_nat a) = repeat c (Z.to_nat b).
+Proof. intros ->. reflexivity. Qed.
+Lemma rep_nonpos (c : Z) a (x : bytes) : a <= 0 -> repeat c (Z.to_nat a) ++ x = x.
+Proof. intros H. replace (Z.to_nat a) with 0%nat by lia. reflexivity. Qed.
+
+(* write_n is pad_num, for every integer *)
+Lemma write_n_spec n v p always : 0 <= n < 1000 ->
+  write_n n v (pad_of p) always = fok (pad_num p n always v).
+Proof.
+  intros Hn. unfold write_n, pad_num, fmt_int, digits, rep, dlen, blen.
+  assert (Hu : add_usize n 1 = Val (n + 1)).
+  { unfold add_usize. apply chk_in. unfold in_usize, in_u64, in_range, u64_max. lia. }
+  destruct always, p; cbn [pad_of]; rewrite ?Hu; cbv [bind fok]; do 2 f_equal;
+    destruct (v <? 0); cbn [List.length];
+    try (rewrite rep_nonpos by lia; reflexivity);
+    try (f_equal; f_equal; apply rep_eq; lia);
+    try (f_equal; apply rep_eq; lia).
+Qed.
+
+Definition write_year_ok (y : Z) : bool :=
+  forallb (fun p => fres_eqb (write_year y (pad_of p)) (pad_num p 4 false y)) all_pads.
+Lemma write_year_sweep : forall_range write_year_ok 1000 9000 = true.
+Proof. vm_compute. reflexivity. Qed.
+Lemma write_year_spec y p : in_i32 y = true ->
+  write_year y (pad_of p) = fok (pad_num p 4 ((y <? 0) || (9999 <? y)) y).
+Proof.
+  intros Hy. destruct ((1000 <=? y) && (y <=? 9999)) eqn:E.
+  - replace ((y <? 0) || (9999 <? y)) with false by lia.
+    apply fres_eqb_eq.
+    pose proof (forall_range_spec _ _ _ write_year_sweep y ltac:(lia)) as Hs.
+    unfold write_year_ok in Hs. rewrite forallb_forall in Hs. apply Hs, all_pads_in.
+  - unfold write_year. rewrite E.
+    replace (negb ((0 <=? y) && (y <? 10000))) with ((y <? 0) || (9999 <? y)) by lia.
+    apply write_n_spec. lia.
+Qed.
+
+(** * Views: how a model value denotes a specification-level value *)
+(* the calendar reading of a packed [NaiveDate]: discharged for every date by C01's theorems *)
+Record date_view (d dn : Z) : Prop := mk_dv {
+  dv_dn : in_i32 dn = true;
+  dv_year : Date.d_year d = year_of_dn dn /\ in_i32 (year_of_dn dn) = true;
+  dv_ymd : exists y m dd, ymd_of_dn dn = (y, m, dd) /\ Date.d_month d = Val m /\ Date.d_day d = Val dd
+                          /\ 1 <= m <= 12 /\ 1 <= dd <= 31;
+  dv_ordinal : Date.d_ordinal d = ordinal_of_dn dn /\ 1 <= ordinal_of_dn dn <= 366;
+  dv_weekday : Date.d_weekday d = Val (weekday_of_dn dn);
+  dv_iso : exists w, Date.d_iso_week d = Val w /\ Date.iw_year w = fst (iso_of_dn dn)
+                     /\ Date.iw_week w = snd (iso_of_dn dn)
+                     /\ 1 <= snd (iso_of_dn dn) <= 53 /\ in_i32 (fst (iso_of_dn dn)) = true;
+  dv_ndce : Date.num_days_from_ce d = Val dn
+}.
+Definition time_view (t : Time.ntime) (s nano : Z) (leap : bool) : Prop :=
+  Time.tsecs t = s /\ 0 <= s < 86400 /\ 0 <= nano < 1000000000 /\
+  Time.tfrac t = nano + (if leap then 1000000000 else 0).
+
+Record args_view (a : fmt_args) (sv : sval) : Prop := mk_av {
+  av_date : match fa_date a, sv_dn sv with
+            | Some d, Some dn => date_view d dn | None, None => True | _, _ => False end;
+  av_time : match fa_time a, sv_sod sv with
+            | Some t, Some s => time_view t s (sv_nano sv) (sv_leap sv) | None, None => True | _, _ => False end;
+  av_off : match fa_off a, sv_off sv with
+           | Some (name, off), Some o =>
+               off = o /\ -86400 < o < 86400 /\
+               (if sv_utc sv then name = utc_display /\ o = 0 else fixed_offset_display o = Val name)
+           | None, None => True | _, _ => False end;
+  av_unix : match sv_unix sv with
+            | Some u => exists dn s, sv_dn sv = Some dn /\ sv_sod sv = Some s /\
+                        u = unix_secs dn s - (match sv_off sv with Some o => o | None => 0 end)
+            | None => sv_dn sv = None \/ sv_sod sv = None
+            end
+}.
+
+Definition claim (r : rres) (out : fres) : Prop :=
+  match r with ROk s => out = fok s | RFail => out = ferr | RSkip => True end.
+
+Lemma as_u8_small x : 0 <= x < 256 -> as_u8 x = x.
+Proof. intros H. apply as_u8_id. unfold in_u8, in_range, u8_max. lia. Qed.
+Lemma in_i32_bounds z : in_i32 z = true -> -2147483648 <= z <= 2147483647.
+Proof. unfold in_i32, in_range, i32_min, i32_max. lia. Qed.
+Lemma chk_i32 z : -2147483648 <= z <= 2147483647 -> chk in_i32 z = Val z.
+Proof. intros. apply chk_in. unfold in_i32, in_range, i32_min, i32_max. lia. Qed.
+Lemma chk_u32 z : 0 <= z <= 4294967295 -> chk in_u32 z = Val z.
+Proof. intros. apply chk_in. unfold in_u32, in_range, u32_max. lia. Qed.
+Lemma chk_i64 z : -9223372036854775808 <= z <= 9223372036854775807 -> chk in_i64 z = Val z.
+Proof. intros. apply chk_in. unfold in_i64, in_range, i64_min, i64_max. lia. Qed.
+
+Lemma wd_days_since_spec a b : 0 <= a <= 6 -> 0 <= b <= 6 -> wd_days_since a b = Val ((a - b) mod 7).
+Proof.
+  intros Ha Hb. unfold wd_days_since, add_u32, sub_u32.
+  destruct (a <? b) eqn:E.
+  - rewrite chk_u32 by lia. cbv [bind]. rewrite chk_u32 by lia. f_equal. lia.
+  - rewrite chk_u32 by lia. f_equal. lia.
+Qed.
+
+Lemma weeks_from_spec d dn day : date_view d dn -> 0 <= day <= 6 ->
+  weeks_from d day = Val (weeks_on_or_before (ordinal_of_dn dn) ((weekday_of_dn dn - day) mod 7)).
+Proof.
+  intros V Hd. destruct V as [_ _ _ [Ho Hor] Hw _ _].
+  unfold weeks_from. rewrite Hw. cbv [bind].
+  assert (Hwd : 0 <= weekday_of_dn dn <= 6) by (unfold weekday_of_dn; lia).
+  rewrite wd_days_since_spec by lia. cbv [bind]. rewrite Ho.
+  set (o := ordinal_of_dn dn) in *. set (s := (weekday_of_dn dn - day) mod 7).
+  assert (Hs : 0 <= s <= 6) by (unfold s; lia).
+  rewrite (as_i32_id o) by (unfold in_i32, in_range, i32_min, i32_max; lia).
+  rewrite (as_i32_id s) by (unfold in_i32, in_range, i32_min, i32_max; lia).
+  unfold sub_i32, add_i32. rewrite chk_i32 by lia. cbv [bind]. rewrite chk_i32 by lia. cbv [bind].
+  unfold div_i32. rewrite div_t_nz by lia. rewrite chk_i32 by lia.
+  f_equal. unfold weeks_on_or_before. destruct (o - s <? 1) eqn:E; lia.
+Qed.
+
+(** * render_item_spec, numeric items *)
+Lemma div_euclid_100 y : in_i32 y = true -> div_euclid in_i32 y 100 = Val (y / 100).
+Proof.
+  intros H. apply in_i32_bounds in H. rewrite div_euclid_pos by lia. apply chk_i32. lia.
+Qed.
+Lemma rem_euclid_100 y : in_i32 y = true -> rem_euclid in_i32 y 100 = Val (y mod 100).
+Proof.
+  intros H. apply in_i32_bounds in H. rewrite rem_euclid_pos by lia.
+  replace (in_i32 (y / 100)) with true; [reflexivity|].
+  symmetry. unfold in_i32, in_range, i32_min, i32_max. lia.
+Qed.
+
+Lemma time_fields t s nano leap : time_view t s nano leap ->
+  Time.hour t = s / 3600 /\ Time.minute t = s / 60 mod 60 /\ Time.second t = s mod 60 /\
+  Z.quot (Time.nanosecond t) 1000000000 = (if leap then 1 else 0) /\
+  Z.rem (Time.nanosecond t) 1000000000 = nano.
+Proof.
+  intros (Hs & Hr & Hn & Hf). unfold Time.hour, Time.minute, Time.second, Time.hms, Time.nanosecond,
+    Time.urem, Time.udiv. rewrite Hs, Hf. destruct leap; repeat split; lia.
+Qed.
+
+Ltac time_case at_ sod ad Ht :=
+  destruct at_ as [t|], sod as [s|]; try contradiction;
+  [|destruct ad; cbn [claim]; reflexivity];
+  destruct (time_fields _ _ _ _ Ht) as (Hh & Hmi & Hse & Hq & Hrm);
+  pose proof Ht as (_ & Hsr & Hnr & _).
+
+Theorem render_numeric_spec : forall a sv f p, args_view a sv ->
+  claim (render_num sv f p) (format_numeric a (numeric_of f) (pad_of p)).
+Proof.
+  intros [ad at_ ao] [dn sod nano leap off utc unix] f p [Hd Ht Ho Hu].
+  cbn [fa_date fa_time fa_off sv_dn sv_sod sv_nano sv_leap sv_off sv_utc sv_unix] in *.
+  unfold render_num, num_value, format_numeric.
+  cbn [fa_date fa_time fa_off sv_dn sv_sod sv_nano sv_leap sv_off sv_utc sv_unix].
+  destruct f; cbn [numeric_of num_width].
+  (* date fields *)
+  all: try (destruct ad as [d|], dn as [dn|]; try contradiction; [|cbn [claim]; reflexivity];
+            destruct (Hd) as [Hdn [Hy Hyr] (yy & m & dd & Hymd & Hm & Hdd & Hmr & Hddr) [Hord Hordr] Hwd
+                              (w & Hw & Hwy & Hww & Hwr & Hwyr) Hnd]).
+  - (* Year *) cbn [claim]. rewrite Hy. apply write_year_spec. exact Hyr.
+  - (* Century *) cbn [claim]. rewrite Hy, div_euclid_100 by exact Hyr. cbv [bind]. apply write_n_spec. lia.
+  - (* YearMod100 *)
+    destruct (year_of_dn dn <? 0) eqn:E; cbn [claim]; [exact I|].
+    rewrite Hy, rem_euclid_100 by exact Hyr. cbv [bind].
+    rewrite as_u8_small by lia. apply write_two_spec. lia.
+  - (* IsoYear *) cbn [claim]. rewrite Hw. cbv [bind]. rewrite Hwy. apply write_year_spec. exact Hwyr.
+  - (* IsoYearMod100 *)
+    destruct (fst (iso_of_dn dn) <? 0) eqn:E; cbn [claim]; [exact I|].
+    rewrite Hw. cbv [bind]. rewrite Hwy, rem_euclid_100 by exact Hwyr. cbv [bind].
+    rewrite as_u8_small by lia. apply write_two_spec. lia.
+  - (* Quarter *) rewrite Hymd. cbn [claim]. unfold d_quarter, d_month0. rewrite Hm. cbv [bind].
+    unfold sub_u32. rewrite chk_u32 by lia. cbv [bind].
+    rewrite div_euclid_pos by lia. rewrite chk_u32 by lia. cbv [bind].
+    unfold add_u32. rewrite chk_u32 by lia. cbv [bind].
+    rewrite as_u8_small by lia. apply write_one_spec. lia.
+  - (* Month *) rewrite Hymd. cbn [claim]. rewrite Hm. cbv [bind]. rewrite as_u8_small by lia.
+    apply write_two_spec. lia.
+  - (* Day *) rewrite Hymd. cbn [claim]. rewrite Hdd. cbv [bind]. rewrite as_u8_small by lia.
+    apply write_two_spec. lia.
+  - (* WeekSun *) cbn [claim]. rewrite (weeks_from_spec d dn WD_SUN Hd) by (unfold WD_SUN; lia). cbv [bind].
+    unfold WD_SUN. replace ((weekday_of_dn dn - 6) mod 7) with ((weekday_of_dn dn + 1) mod 7) by lia.
+    set (k := weeks_on_or_before _ _).
+    assert (0 <= k < 100) by (unfold k, weeks_on_or_before; destruct (_ <? 1); lia).
+    rewrite as_u8_small by lia. apply write_two_spec. lia.
+  - (* WeekMon *) cbn [claim]. rewrite (weeks_from_spec d dn WD_MON Hd) by (unfold WD_MON; lia). cbv [bind].
+    unfold WD_MON. assert (Hwdr : 0 <= weekday_of_dn dn <= 6) by (unfold weekday_of_dn; lia).
+    replace ((weekday_of_dn dn - 0) mod 7) with (weekday_of_dn dn) by lia.
+    set (k := weeks_on_or_before _ _).
+    assert (0 <= k < 100) by (unfold k, weeks_on_or_before; destruct (_ <? 1); lia).
+    rewrite as_u8_small by lia. apply write_two_spec. lia.
+  - (* IsoWeek *) cbn [claim]. rewrite Hw. cbv [bind]. rewrite Hww. rewrite as_u8_small by lia.
+    apply write_two_spec. lia.
+  - (* WdaySun0 *) cbn [claim]. rewrite Hwd. cbv [bind]. unfold wd_num_days_from_sunday, WD_SUN.
+    assert (Hwdr : 0 <= weekday_of_dn dn <= 6) by (unfold weekday_of_dn; lia).
+    rewrite wd_days_since_spec by lia. cbv [bind].
+    replace ((weekday_of_dn dn - 6) mod 7) with ((weekday_of_dn dn + 1) mod 7) by lia.
+    rewrite as_u8_small by lia. apply write_one_spec. lia.
+  - (* WdayMon1 *) cbn [claim]. rewrite Hwd. cbv [bind]. unfold wd_number_from_monday, WD_MON.
+    assert (Hwdr : 0 <= weekday_of_dn dn <= 6) by (unfold weekday_of_dn; lia).
+    rewrite wd_days_since_spec by lia. cbv [bind]. unfold add_u32. rewrite chk_u32 by lia. cbv [bind].
+    replace ((weekday_of_dn dn - 0) mod 7 + 1) with (weekday_of_dn dn + 1) by lia.
+    rewrite as_u8_small by lia. apply write_one_spec. lia.
+  - (* Ordinal *) cbn [claim]. rewrite Hord. apply write_n_spec. lia.
+  (* time fields *)
+  - (* Hour *) time_case at_ sod ad Ht. destruct ad; cbn [claim]; rewrite Hh, as_u8_small by lia; apply write_two_spec; lia.
+  - (* Hour12 *) time_case at_ sod ad Ht.
+    assert (E : snd (Time.hour12 t) = (if s / 3600 mod 12 =? 0 then 12 else s / 3600 mod 12)).
+    { unfold Time.hour12. rewrite Hh. cbn [snd]. unfold Time.urem.
+      replace (Z.rem (s / 3600) 12) with (s / 3600 mod 12) by lia. reflexivity. }
+    destruct ad; cbn [claim]; rewrite E;
+      (rewrite as_u8_small by (destruct (_ =? 0); lia)); apply write_two_spec; destruct (_ =? 0); lia.
+  - (* Minute *) time_case at_ sod ad Ht. destruct ad; cbn [claim]; rewrite Hmi, as_u8_small by lia; apply write_two_spec; lia.
+  - (* Second *) time_case at_ sod ad Ht.
+    destruct ad; cbn [claim]; rewrite Hse, Hq; unfold add_u32;
+      (rewrite chk_u32 by (destruct leap; lia)); cbv [bind];
+      (rewrite as_u8_small by (destruct leap; lia)); apply write_two_spec; destruct leap; lia.
+  - (* Nanos *) time_case at_ sod ad Ht. destruct ad; cbn [claim]; rewrite Hrm; apply write_n_spec; lia.
+  - (* Timestamp *)
+    destruct unix as [u|].
+    + destruct Hu as (dn' & s' & E1 & E2 & Eu).
+      destruct ad as [d|], dn as [dn|]; try contradiction; try discriminate.
+      destruct at_ as [t|], sod as [s|]; try contradiction; try discriminate.
+      injection E1 as <-. injection E2 as <-. cbn [claim].
+      destruct Hd as [Hdn _ _ _ _ _ Hnd]. destruct Ht as (Hs & Hsr & _).
+      unfold naive_timestamp, DateTime.dt_timestamp. cbn [DateTime.nd_date DateTime.nd_time].
+      rewrite Hnd. cbv [bind]. unfold Time.num_seconds_from_midnight. rewrite Hs.
+      apply in_i32_bounds in Hdn.
+      unfold sub_i64, mul_i64, add_i64, Gen.DateTimeConsts.UNIX_EPOCH_DAY.
+      rewrite chk_i64 by lia. cbv [bind]. rewrite chk_i64 by lia. cbv [bind]. rewrite chk_i64 by lia. cbv [bind].
+      assert (Hoff : (match ao with Some (_, o) => o | None => 0 end) = (match off with Some o => o | None => 0 end)
+                     /\ -86400 < (match off with Some o => o | None => 0 end) < 86400).
+      { destruct ao as [[nm o]|], off as [o'|]; try contradiction; [|lia]. destruct Ho as (-> & Hr & _). lia. }
+      destruct Hoff as [-> Hor]. rewrite chk_i64 by lia. cbv [bind].
+      subst u. unfold unix_secs, EPOCH_DN. replace ((dn - 719163) * 86400 + s - _) with
+        ((dn - 719163) * 86400 + s - match off with Some o => o | None => 0 end) by lia.
+      apply write_n_spec. lia.
+    + cbn [claim]. destruct Hu as [E|E]; subst.
+      * destruct ad; [contradiction|]. reflexivity.
+      * destruct at_; [contradiction|]. destruct ad; reflexivity.
+Qed.
